@@ -707,7 +707,11 @@ pub fn run_c11(cfg: &ShardCfg, out: &mut ShardOut) {
 // ------------------------------------------------------------------------------------ C12
 
 pub fn run_c12_case(n: usize, cap: usize, g_ops: &[Op], h: &[Op], left: usize, right: usize, c: &mut Counters) -> (Option<String>, bool) {
-    let Some(hm) = Model::build(n, cap, h) else { return (None, false) };
+    // hand-overs inside h (the right graph goes on as a slice from its root / as a clone of itself)
+    // leave vertices and edges as they are: the description of h is the one without them
+    let h_plain: Vec<Op> = h.iter().filter(|o| !matches!(o, Op::Slice(_) | Op::Clone { .. })).cloned().collect();
+    let handed_over = h_plain.len() != h.len();
+    let Some(hm) = Model::build(n, cap, &h_plain) else { return (None, false) };
     let Some(gm) = Model::build(n, cap, g_ops) else { return (None, false) };
     if !gm.present(left) || !hm.present(right) {
         return (None, false);
@@ -735,6 +739,14 @@ pub fn run_c12_case(n: usize, cap: usize, g_ops: &[Op], h: &[Op], left: usize, r
                     Op::Data(v) => {
                         let _ = gr.data(*v);
                     }
+                    Op::Slice(v) => {
+                        if gr.keys().contains(v) {
+                            if let Ok(sl) = gr.slice(*v) {
+                                *gr = sl;
+                            }
+                        }
+                    }
+                    Op::Clone { .. } => *gr = gr.clone_box(),
                     _ => {}
                 }
             }
@@ -757,6 +769,9 @@ pub fn run_c12_case(n: usize, cap: usize, g_ops: &[Op], h: &[Op], left: usize, r
         (g.merge(hg.as_ref(), left, right), hk)
     });
     c.inc("c12.merges");
+    if handed_over {
+        c.inc("c12.right-graphs-that-went-through-slice()/clone()");
+    }
     let nontrivial = !missed.is_empty();
     match r {
         Err(_) => {
@@ -834,11 +849,54 @@ pub fn run_c12(cfg: &ShardCfg, out: &mut ShardOut) {
         let hdp: Vec<u8> = (0..hk).map(|_| *rng.pick(&[0u8, 1, 2])).collect();
         let mut h = tree_ops(&ht, &hids, &labels, &hdp, rng.chance(1, 2));
         let mut big_detached = false;
+        // interaction: the right graph is handed over (slice from its root, which keeps all of it, or a
+        // clone) before anything gets detached
+        if rng.chance(1, 3) {
+            h.push(if rng.chance(2, 3) { Op::Slice(hids[0]) } else { Op::Clone { swap: true } });
+        }
+        // an edge of the main tree re-pointed to a descendant of its target, without any new vertex: the
+        // vertices in between are detached (and keep their edges into the part that stays reachable)
+        if hk >= 3 && rng.chance(1, 4) {
+            let i = rng.range(1, hk - 1);
+            let below: Vec<usize> = (0..hk)
+                .filter(|j| {
+                    let mut x = *j;
+                    while x != 0 && x != i {
+                        x = ht[x];
+                    }
+                    x == i && *j != i
+                })
+                .collect();
+            let edge = h.iter().find_map(|o| match o {
+                Op::Bind(a, b, l) if *b == hids[i] => Some((*a, *l)),
+                _ => None,
+            });
+            if let (Some((a, l)), false) = (edge, below.is_empty()) {
+                let d = *rng.pick(&below);
+                h.push(Op::Bind(a, hids[d], l));
+                big_detached = true;
+            }
+        }
         // ... plus extras: isolated vertices (with/without data), detached sub-trees
         let extras = rng.below(7);
         for _ in 0..extras {
             if all_ids.is_empty() {
                 break;
+            }
+            if hk >= 2 && rng.chance(1, 4) {
+                // an existing edge of the main tree re-pointed to a new vertex: the old sub-tree is detached
+                let i = rng.range(1, hk - 1);
+                let edge = h.iter().find_map(|o| match o {
+                    Op::Bind(a, b, l) if *b == hids[i] => Some((*a, *l)),
+                    _ => None,
+                });
+                if let Some((a, l)) = edge {
+                    let w = all_ids.pop().unwrap();
+                    h.push(Op::Add(w));
+                    h.push(Op::Bind(a, w, l));
+                    big_detached = true;
+                }
+                continue;
             }
             if rng.chance(1, 2) {
                 let v = all_ids.pop().unwrap();
